@@ -46,6 +46,8 @@ type c16Case struct {
 	Route   string `json:"route,omitempty"` // "direct" | "queue" | "gossip-full-queue"
 	Limit   int    `json:"limit"`
 	StopAt  int    `json:"stop_at"` // datagram index at which the node is stopped (-1: never)
+	// Dir "in-multi": behaviour of each of three peers offering at the same moment (c16multi.go)
+	Peers []string `json:"peers,omitempty"`
 }
 
 var c16OutOutcomes = []string{"silent", "empty", "wrong-code", "undecodable", "wrong-count", "declined", "accept-never-waits", "accept-then-reset", "accept-then-stall", "success", "too-many-keys"}
@@ -105,14 +107,21 @@ func c16Run(r *mc.Report, c c16Case, finish func(digest string)) (digest string,
 			return deliver
 		}
 		peerVersions := []uint8{uint8(c.Ver)}
-		if c.Dir == "out" {
+		var more []*mnode
+		switch c.Dir {
+		case "out":
 			digest = c16Outbound(r, c, w, &node, &peer, peerVersions, decide, viol)
-		} else {
+		case "in-multi":
+			digest = c16InboundMulti(r, c, w, &node, &more, decide, viol)
+		default:
 			digest = c16Inbound(r, c, w, &node, &peer, peerVersions, decide, viol)
 		}
 		datagrams = w.sent
 		if finish != nil {
 			finish(digest) // one-case worker process: leaves from inside the bubble
+		}
+		for _, p := range more {
+			p.close()
 		}
 		if peer != nil {
 			peer.close()
@@ -404,7 +413,7 @@ func c16Cases(thorough bool) []c16Case {
 
 func runC16(r *mc.Report, e *Env) {
 	r.Rule = "one case = one offer (sent or received) by a real started node against a scripted peer on the in-memory wire (explorer-owned FIFO delivery, virtual clock), optionally with the node stopped at datagram index k; after 5 virtual minutes every slot must be free and the offer's slot released; distinct = distinct (free slots, releases, error, result) observations"
-	r.Assume("datagram delivery is FIFO (no loss or reordering in this check); one offer per case; the scripted peer speaks real discv5 and real uTP")
+	r.Assume("datagram delivery is FIFO (no loss or reordering in this check); one offer per case, or (in-multi) three simultaneous offers, a fourth during the transfers and a second round; the scripted peers speak real discv5 and real uTP")
 	r.Assume("stop is injected at every datagram index of the fault-free trace of the queue-routed transient v1 cases (outbound) and of every inbound case; other cases run without stop")
 	// One worker process per case: utp-go and discv5 leave goroutines with tickers behind,
 	// so a bubble can never be left; the process exits from inside it once the case is judged.
@@ -415,7 +424,7 @@ func runC16(r *mc.Report, e *Env) {
 		}
 		c := c
 		label := func(d string) string {
-			return fmt.Sprintf("%s|%s|%s|%s|v%d|L%d|stop=%v|%s", c.Dir, c.Outcome, c.Kind, c.Route, c.Ver, c.Limit, c.StopAt >= 0, d)
+			return fmt.Sprintf("%s|%s%v|%s|%s|v%d|L%d|stop=%v|%s", c.Dir, c.Outcome, c.Peers, c.Kind, c.Route, c.Ver, c.Limit, c.StopAt >= 0, d)
 		}
 		if c.StopAt >= 0 {
 			r.Count("stop_points", 1)
@@ -437,13 +446,14 @@ func c16Samples(r *mc.Report) {
 	r.Sample(c16Case{Dir: "out", Outcome: "silent", Kind: "transient", Ver: 1, Route: "queue", Limit: 1, StopAt: -1})
 	r.Sample(c16Case{Dir: "out", Outcome: "accept-then-stall", Kind: "persist", Ver: 0, Route: "direct", Limit: 2, StopAt: -1})
 	r.Sample(c16Case{Dir: "in", Outcome: "wrong-item-count", Ver: 1, Limit: 1, StopAt: 17})
+	r.Sample(c16Case{Dir: "in-multi", Peers: []string{"dial-then-stall", "success", "never-dials"}, Ver: 1, Limit: 2, StopAt: -1})
 }
 
 // c16AllCases: the base cases plus, for the queue-routed transient v1 outbound cases and the
 // v1 inbound cases at limit 1, a stop of the node at every (quick: every 2nd) datagram index
 // up to a bound that exceeds every fault-free trace (later indices repeat the no-stop case).
 func c16AllCases(thorough bool) []c16Case {
-	cases := c16Cases(thorough)
+	cases := append(c16Cases(thorough), c16MultiCases(thorough)...)
 	maxK, step := 60, 2
 	if thorough {
 		maxK, step = 90, 1
